@@ -229,14 +229,90 @@ for j, sj in DROP.items():
                               "impl": "release" if acc else r[2], "spec": "release" if want else "refuse"}})
         hist["tool-made-skr"] = hist.get("tool-made-skr", 0) + 1
 
+# ---- "released" means the file the ceremony hands over: the real ksrsigner, previous SKR and KSR on disk, output path observed afterwards
+import shutil
+import tempfile
+
+import kskm.ksr.verify_policy as vpol
+from kskm.tools import ksrsigner as tool
+
+
+class _Pinned(dt.datetime):
+    @classmethod
+    def now(cls, tz=None):
+        return T0 + D(days=60)
+
+
+def ceremony_release(prev_name, new_name, ps, rs, existing):
+    base_pol = ksrxml.default_zsk_policy(publish_safety=D(days=10), retire_safety=D(days=10))
+    last = simulated(prev_name, "prev", T0, base_pol)
+    zs = [[ZSKS[0], ZSKS[1]]] + [[ZSKS[1]]] * 7 + [[ZSKS[1], ZSKS[2]]]
+    lastz = [k for k in last["bundles"][-1]["keys"] if k["flags"] == 256]
+    zs[0] = lastz
+    zs[1:8] = [[lastz[-1]]] * 7
+    zs[8] = [lastz[-1], ZSKS[0]]
+    req = skrgen.honest_request("new", T0 + D(days=90), 9, zs, ksrxml.default_zsk_policy(), sign=True)
+    d = tempfile.mkdtemp(prefix="c09-", dir=str(vlib.WORK))
+    try:
+        paths = {n: os.path.join(d, n + ".xml") for n in ("ksr", "prev", "out")}
+        open(paths["ksr"], "w").write(ksrxml.render_ksr(req))
+        open(paths["prev"], "w").write(ksrxml.render_skr(last))
+        if existing is not None:
+            open(paths["out"], "wb").write(existing)
+        cfg = ceremony.make_config({n: ceremony.ksk_def(k) for n, k in KSKS.items()}, {"s": {i: {k: v for k, v in a.items() if v} for i, a in ALL[new_name].items()}},
+                                   request_policy={"num_bundles": 9, "rsa_approved_key_sizes": [1024], "num_keys_per_bundle": [len(x) for x in zs],
+                                                   "num_different_keys_in_all_bundles": len({k["pub"] for x in zs for k in x}), "check_cycle_length": False, "signature_horizon_days": 400},
+                                   response_policy={"num_bundles": 9},
+                                   ksk_policy={"publish_safety": ksrxml.fmt_dur(ps), "retire_safety": ksrxml.fmt_dur(rs), "max_signature_validity": "P21D",
+                                               "min_signature_validity": "P21D", "max_validity_overlap": "P16D", "min_validity_overlap": "P9D", "ttl": 172800})
+        emu.install(ceremony.token_with(list(KSKS.values())))
+        vpol.datetime = _Pinned
+        try:
+            with contextlib.redirect_stdout(io.StringIO()):
+                r = vlib.run_impl(tool.ksrsigner, logging.getLogger("verif.c09"), ceremony.args_ns(ksr=paths["ksr"], skr=paths["out"], previous_skr=paths["prev"], force=True, schema="s"), cfg)
+        finally:
+            vpol.datetime = dt.datetime
+        after = open(paths["out"], "rb").read() if os.path.exists(paths["out"]) else None
+    finally:
+        shutil.rmtree(d, ignore_errors=True)
+    new_ref = skrgen.simulate_skr(req, ALL[new_name], KSKS, ksrxml.default_zsk_policy(publish_safety=ps, retire_safety=rs))
+    return r, after, spec(RequestPolicy(), last, new_ref)
+
+
+import contextlib
+import io
+import logging
+import os
+vlib.WORK.mkdir(exist_ok=True)
+OLDF = b"<the output of an earlier attempt/>\n"
+CER = [("normal", "normal", D(days=10), D(days=10)), ("publish+", "tool-drop@2", D(days=10), D(days=30)), ("normal", "cosign-third@1", D(days=10), D(days=10)),
+       ("normal", "normal", D(days=200), D(days=10)), ("publish+", "rollover+", D(days=10), D(days=10)), ("normal", "drop-cur@1", D(days=10), D(days=10)),
+       ("normal", "sign-revoke-drop@3", D(days=10), D(days=10)), ("publish+", "tool-drop@4", D(days=10), D(days=20))]
+for (a, b, ps, rs) in (CER if TIER == "quick" else CER + [(a, b, D(days=10), D(days=10)) for a in SCHEMAS for b in SCHEMAS]):
+    for existing in (None, OLDF):
+        r, after, want = ceremony_release(a, b, ps, rs, existing)
+        hist["ceremony-release"] = hist.get("ceremony-release", 0) + 1
+        released = after is not None and after != existing
+        hist["ceremony-released" if released else "ceremony-refused"] = hist.get("ceremony-released" if released else "ceremony-refused", 0) + 1
+        what = None
+        if released and not want:
+            what = f"a new SKR ({len(after)} octets) is at the output path although the safety rules refuse it (the run ended with {r[2] if r[0] != 'ok' else r[1]})"
+        elif want and not released:
+            what = f"no SKR was released ({r[2] if r[0] != 'ok' else r[1]}) although the safety rules allow it"
+        elif (r == ("ok", True)) != released:
+            what = f"the run reported {r[1] if r[0] == 'ok' else r[2]} but the output path was {'written' if released else 'left alone'}"
+        if what:
+            rep.violation("impl-vs-spec", f"ceremony {a} -> {b}, publish_safety={ps}, retire_safety={rs}: {what}",
+                          {"kind": "ceremony-release", "prev_schema": a, "new_schema": b, "publish_safety": str(ps), "retire_safety": str(rs), "output_existed": existing is not None})
+
 ok_build, log = vlib.make(["Checks/C08Check.vo"])
 runner = vlib.CaseRun("C09", "main", "From KV Require Import Base.Prelude Base.Exn Model.Data Model.KsrPolicy Model.Chain Checks.C08Check.", "case9", "check9", shard=60)
 results = runner.run(cases) if ok_build else [-1] * len(cases)
 vlib.classify(rep, props, meta, results, cases, runner, "Checks.C08Check.check9 (check_last_skr_and_new_skr)")
 runner.cleanup()
 rep.coverage.update({
-    "evaluations": len(cases), "distinct_nontrivial": len(set(cases)),
-    "rule": "(previous SKR, new SKR) pairs built by a reference signer from ordered pairs of the example schemas and custom schemas over 2..3 KSKs "
+    "evaluations": len(cases) + hist.get("ceremony-release", 0), "distinct_nontrivial": len(set(cases)),
+    "rule": "whole ceremonies through the real ksrsigner tool (previous SKR and KSR on disk, token emulator) observing the output path; (previous SKR, new SKR) pairs built by a reference signer from ordered pairs of the example schemas and custom schemas over 2..3 KSKs "
             "(key dropped at slot j, unpublished co-signer, revocation at slot j), publish/retire safety periods on the lattice around the decisive "
             "differences, first inception -1..+2 cycles (thorough), flag subsets; judged by check_last_skr_and_new_skr; distinct_nontrivial = distinct (policy, pair, verdict)",
     "distribution": hist, "released": accepts, "refused": len(cases) - accepts,
